@@ -33,6 +33,7 @@ type state struct {
 	n       int
 	rrPrev  int  // previous round-robin pick (-1: none)
 	rrClean bool // no setctr since the previous pick
+	rrExp   uint64 // the 64-bit counter value the harness expects (what it set, plus the picks since)
 	tally   []int
 	hashMap map[string]int
 }
@@ -76,11 +77,14 @@ func oracleNext(op string, addrTok string, pos, idx int, panicked bool, ctrBefor
 	switch st.pol {
 	case "rr":
 		// cyclic: successor of the previous pick (unless the counter was scripted or wrapped in between)
-		if st.rrPrev >= 0 && st.rrClean && ctrBefore != 0 {
+		// (the excuse is the wrap of a 64-bit counter, judged on the harness's own count, not on what the
+		// implementation's counter reads: a narrower counter that wraps earlier is not excused)
+		if st.rrPrev >= 0 && st.rrClean && st.rrExp != 0 {
 			if pos != (st.rrPrev+1)%st.n {
 				bad("not-cyclic", fmt.Sprintf("prev=%d got=%d", st.rrPrev, pos))
 			}
 		}
+		st.rrExp++
 		if want := int(ctrBefore % uint64(st.n)); pos != want {
 			bad("not-counter-mod-size", fmt.Sprintf("ctr=%d got=%d", ctrBefore, pos))
 		}
@@ -132,6 +136,7 @@ func exec(name string, a []string) {
 		c, _ := strconv.ParseUint(a[0], 10, 64)
 		st.lb.SetRRCounter(c)
 		st.rrClean = false
+		st.rrExp = c
 	case "next", "accept":
 		w.Op(l)
 		addr := parseAddr(a[0])
